@@ -28,7 +28,14 @@ def int_encodings(v, tier):
     if -2**63 < v < 2**63:
         out.append(("lit", None))
     if tier == "quick" and len(out) > 2:
-        out = [out[0], out[-2] if out[-1][0] == "lit" else out[-1]] + ([out[-1]] if out[-1][0] == "lit" else [])
+        # two machine encodings (which two rotates with the value, so that every pair of encodings meets across the universe)
+        # plus the literal spelling
+        lit = [o for o in out if o[0] == "lit"]
+        enc = [o for o in out if o[0] != "lit"]
+        k = abs(v) % len(enc)
+        out = [enc[k], enc[(k + 1 + (abs(v) // 7) % max(1, len(enc) - 1)) % len(enc)]] + lit
+        if out[0] is out[1]:
+            out = out[1:]
     return out
 
 
